@@ -185,7 +185,71 @@ def eqswap(tree):
     return n
 
 
-KINDS = {"rename": rename_locals, "logmsg": logmsg, "docpass": docpass, "noop": noop, "rettemp": rettemp, "ifflip": ifflip, "eqswap": eqswap}
+def notwrap(tree):
+    """`a not in b` becomes `not (a in b)`, `a is not b` becomes `not (a is b)` (the other spelling of the same test)"""
+    n = 0
+
+    class T(ast.NodeTransformer):
+        def visit_Compare(self, node):
+            nonlocal n
+            self.generic_visit(node)
+            if len(node.ops) == 1 and isinstance(node.ops[0], (ast.NotIn, ast.IsNot)):
+                n += 1
+                pos = ast.Compare(node.left, [ast.In() if isinstance(node.ops[0], ast.NotIn) else ast.Is()], node.comparators)
+                return ast.UnaryOp(ast.Not(), pos)
+            return node
+    T().visit(tree)
+    return n
+
+
+def _pure(e):
+    return not any(isinstance(x, (ast.Call, ast.Await, ast.Yield, ast.YieldFrom, ast.NamedExpr, ast.Subscript, ast.Attribute)) for x in ast.walk(e))
+
+
+def reorder(tree):
+    """two adjacent plain assignments `a = <pure>; b = <pure>` that do not read each other's target are swapped"""
+    n = 0
+    for fn in [x for x in ast.walk(tree) if isinstance(x, (ast.FunctionDef, ast.AsyncFunctionDef))]:
+        for holder in [fn] + list(_walk_scope(fn)):
+            for fld in ("body", "orelse", "finalbody"):
+                body = getattr(holder, fld, None)
+                if not (isinstance(body, list) and body and isinstance(body[0], ast.stmt)) or isinstance(holder, ast.ClassDef):
+                    continue
+                i = 0
+                while i + 1 < len(body):
+                    a, b = body[i], body[i + 1]
+                    ok = all(isinstance(x, ast.Assign) and len(x.targets) == 1 and isinstance(x.targets[0], ast.Name) and _pure(x.value) for x in (a, b))
+                    if ok:
+                        ta, tb = a.targets[0].id, b.targets[0].id
+                        ra = {x.id for x in ast.walk(a.value) if isinstance(x, ast.Name)}
+                        rb = {x.id for x in ast.walk(b.value) if isinstance(x, ast.Name)}
+                        if ta != tb and ta not in rb and tb not in ra:
+                            body[i], body[i + 1] = b, a
+                            n += 1
+                            i += 2
+                            continue
+                    i += 1
+    return n
+
+
+def ternary(tree):
+    """`if c: x = A else: x = B` (same plain target, nothing else) becomes `x = A if c else B`"""
+    n = 0
+
+    class T(ast.NodeTransformer):
+        def visit_If(self, node):
+            nonlocal n
+            self.generic_visit(node)
+            if len(node.body) == 1 and len(node.orelse) == 1 and all(isinstance(x, ast.Assign) and len(x.targets) == 1 and isinstance(x.targets[0], ast.Name) for x in (node.body[0], node.orelse[0])) \
+                    and node.body[0].targets[0].id == node.orelse[0].targets[0].id:
+                n += 1
+                return ast.Assign([ast.Name(node.body[0].targets[0].id, ast.Store())], ast.IfExp(node.test, node.body[0].value, node.orelse[0].value))
+            return node
+    T().visit(tree)
+    return n
+
+
+KINDS = {"notwrap": notwrap, "reorder": reorder, "ternary": ternary, "rename": rename_locals, "logmsg": logmsg, "docpass": docpass, "noop": noop, "rettemp": rettemp, "ifflip": ifflip, "eqswap": eqswap}
 
 
 def overlay_for(files, kind):
